@@ -82,6 +82,15 @@ class Synth(object):
             self.klass(c)
         for c in d['classes']:
             self.ref_attrs(c)
+        if d.get('irdt'):
+            # one instance-reference and one instance-set-reference data type per class
+            for c in d['classes']:
+                for is_set, fmt in ((False, 'inst_ref<%s>'), (True, 'inst_ref_set<%s>')):
+                    did = self.id()
+                    self.dt[fmt % c['kl']] = did
+                    self.row('S_DT', DT_ID=did, Dom_ID=0, Name=fmt % c['kl'], Descrip='', DefaultValue='')
+                    self.pe(did, c.get('comp', ''), 3)
+                    self.row('S_IRDT', DT_ID=did, isSet=is_set, Obj_ID=self.obj[c['kl']])
         for r in d.get('rels', []):
             self.rel(r)
         for f in d.get('funcs', []):
